@@ -1,1 +1,27 @@
 import Pcore.Props.C07
+open Pcore.ValueEq
+#print axioms C07_refl
+#print axioms C07_symm
+#print axioms C07_trans
+#print axioms C07_no_fault
+#print axioms C07_key_inj
+#print axioms C07_key_iff
+#print axioms C07_key_iff_fails_raw_string
+#print axioms C07_key_iff_fails_member_order
+#print axioms C07_not_key_iff_full
+#print axioms C07_get_fails_raw_string
+#print axioms C07_unique_fails_raw_string
+#print axioms C07_unique_fails_member_order
+#print axioms C07_type_key_iff
+#print axioms C07_type_ordered_imp_eq
+#print axioms C07_get_sound
+#print axioms C07_get_complete
+#print axioms C07_get
+#print axioms C07_unique_sub
+#print axioms C07_unique_cover
+#print axioms C07_unique_distinct
+#print axioms tyKey_sound
+#print axioms TopSafe_of_not_str
+#print axioms TopSafe_of_str
+#print axioms TypeKeysAgree_of_no_types
+#print axioms TypeKeysAgree_of_ordered
